@@ -183,7 +183,14 @@ PROJECT_ENVS = {
     "re": "from behave import use_step_matcher\nuse_step_matcher('re')\n",
     "type": "import parse\nfrom behave import register_type\n@parse.with_pattern(r'\\d+')\ndef number(text):\n    return int(text)\nregister_type(Number=number)\n",
     "raise": "def before_all(context):\n    raise RuntimeError('no database')\n",
+    # the run is aborted (context.abort(), nothing raises) at its very end / after a scenario / by a cleanup of the test-run layer
+    "abort_after_all": "def after_all(context):\n    context.abort()\n",
+    "abort_after_scenario": "def after_scenario(context, scenario):\n    context.abort()\n",
+    "abort_root_cleanup": "def before_all(context):\n    context.add_cleanup(context.abort)\n",
+    "raise_after_all": "def after_all(context):\n    raise RuntimeError('teardown')\n",
+    "raise_root_cleanup": "def boom():\n    raise RuntimeError('cleanup')\ndef before_all(context):\n    context.add_cleanup(boom)\n",
 }
+FAILING_ENVS = ("raise", "abort_after_all", "abort_after_scenario", "abort_root_cleanup", "raise_after_all", "raise_root_cleanup")
 PROJECT_STEPS = {
     "none": "from behave import given, then\n@given('a counter at {start:d}')\ndef g(context, start):\n    context.n = start\n"
             "@then('it shows {n:d}')\ndef t(context, n):\n    assert context.n == n\n",
@@ -192,7 +199,8 @@ PROJECT_STEPS = {
     "type": "from behave import given, then\n@given('a counter at {start:Number}')\ndef g(context, start):\n    context.n = start\n"
             "@then('it shows {n:Number}')\ndef t(context, n):\n    assert context.n == n\n",
 }
-PROJECT_STEPS["plain"] = PROJECT_STEPS["raise"] = PROJECT_STEPS["none"]
+for _e in PROJECT_ENVS:
+    PROJECT_STEPS.setdefault(_e, PROJECT_STEPS["none"])
 
 
 def impl_project(case):
@@ -229,7 +237,7 @@ PROJECT_TAGS = {   # --tags arguments -> (well-formed, selects the scenario tagg
 
 
 def oracle_project(case, obs):
-    want_success = case["outcome"] == "pass" and case["env"] != "raise"
+    want_success = case["outcome"] == "pass" and case["env"] not in FAILING_ENVS
     if case.get("tags"):
         _args, well_formed, selects_bad = PROJECT_TAGS[case["tags"]]
         if not well_formed:
@@ -237,7 +245,7 @@ def oracle_project(case, obs):
                 return [("project run with the malformed tag expression %r (nothing can be selected, the run is given up): exit code 0\n%s"
                          % (_args, obs["tail"][-300:]), "false-green")]
             return []
-        want_success = case["env"] != "raise" and (case["outcome"] == "pass" or not selects_bad)
+        want_success = case["env"] not in FAILING_ENVS and (case["outcome"] == "pass" or not selects_bad)
     if want_success and obs["exit"] != 0:
         return [("project (environment.py: %s) whose steps all pass and where nothing raises: exit code %d\n%s" % (case["env"], obs["exit"], obs["tail"][-300:]),
                  "false-red")]
@@ -257,13 +265,13 @@ def suites(tier, seed):
         cases.append(p)
     cases += wip_boundary_programs(rnd, 400 if tier == "thorough" else 90)
     projects = [{"env": e, "outcome": o, "args": a} for e in PROJECT_ENVS for o in ("pass", "fail", "undefined")
-                for a in ([], ["--stop"]) if not (a and o == "pass" and e in ("none", "plain"))]
+                for a in ([], ["--stop"]) if not (a and (o == "pass" and e in ("none", "plain") or e.startswith(("abort_", "raise_"))))]
     projects += [{"env": e, "outcome": o, "tags": t, "args": PROJECT_TAGS[t][0]} for e in ("none", "re") for o in ("pass", "fail", "undefined")
                  for t in PROJECT_TAGS if not (e == "re" and o == "pass")]
     proj = {"name": "projects", "cases": projects, "impl": impl_project, "oracle": oracle_project, "exhaustive": True,
             "nontrivial": lambda c, o: True,
             "bound": "%d projects on disk (environment.py: none / hooks / step matcher chosen at module level / type registered at "
-                     "module level / raising before_all) x outcome x --stop x --tags (well-formed selecting / de-selecting the failing scenario, "
+                     "module level / raising before_all / raising after_all / context.abort() in after_all, after_scenario or a test-run cleanup / raising test-run cleanup) x outcome x --stop x --tags (well-formed selecting / de-selecting the failing scenario, "
                      "malformed), run by python -m behave: exit code" % len(projects)}
     return [proj, {"name": "programs", "cases": cases, "impl": rc.impl_run, "oracle": oracle,
              "nontrivial": nontrivial, "histogram": rc.histogram, "shrink": rc.shrink_program,
